@@ -30,8 +30,11 @@ import (
 type tk struct {
 	Round  int64  `json:"round"`
 	Signer int    `json:"signer"` // index into the node table (1-based)
-	Sig    string `json:"sig"`    // good|wrongkey|tampered|empty|garbage
-	Hash   int    `json:"hash"`
+	Sig    string `json:"sig"`    // good|wrongkey|tampered|empty|garbage|replay|stolen
+	// replay: the signature string of the latest genuine ticket of the same signer earlier in this history
+	// stolen: the signature string of the latest genuine ticket of ANOTHER signer earlier in this history
+	// (without such an earlier ticket both fall back to a signature made for another round)
+	Hash int `json:"hash"`
 }
 type blk struct {
 	Round int64 `json:"round"`
@@ -145,29 +148,52 @@ func hashInt(s string) int {
 	return h
 }
 
-// makeTicket builds the wire ticket with a real signature according to the mode.
-func makeTicket(t tk) *chain.LFBTicket {
+// makeTicket builds the wire ticket with a real signature according to the mode; `made` are the
+// genuine tickets posted earlier in the history (for replayed / stolen signature strings).
+func makeTicket(t tk, made []*chain.LFBTicket) *chain.LFBTicket {
 	p := peers[t.Signer]
 	lt := &chain.LFBTicket{Round: t.Round, SharderID: p.nd.ID, LFBHash: hashStr(t.Hash)}
+	other := func() {
+		lt.Round = t.Round - 1
+		lt.Sign, _ = p.scheme.Sign(lt.Hash())
+		lt.Round = t.Round
+	}
 	switch t.Sig {
 	case "good":
 		lt.Sign, _ = p.scheme.Sign(lt.Hash())
 	case "wrongkey":
-		other := peers[t.Signer%3+1] // a current sharder's key, but not the claimed signer's
-		if other == p {
-			other = peers[(t.Signer+1)%3+1]
+		o := peers[t.Signer%3+1] // a current sharder's key, but not the claimed signer's
+		if o == p {
+			o = peers[(t.Signer+1)%3+1]
 		}
-		lt.Sign, _ = other.scheme.Sign(lt.Hash())
+		lt.Sign, _ = o.scheme.Sign(lt.Hash())
 	case "tampered":
-		lt.Round = t.Round - 1
-		lt.Sign, _ = p.scheme.Sign(lt.Hash())
-		lt.Round = t.Round
+		other()
+	case "replay", "stolen":
+		other()
+		for i := len(made) - 1; i >= 0; i-- {
+			if (made[i].SharderID == lt.SharderID) == (t.Sig == "replay") {
+				lt.Sign = made[i].Sign
+				break
+			}
+		}
 	case "empty":
 		lt.Sign = ""
 	default:
 		lt.Sign = "zz-not-hex"
 	}
 	return lt
+}
+
+// sigOK: does the ticket's signature really verify, for the ticket's own (round, sender, hash),
+// under the key of the node it names as sender?
+func sigOK(lt *chain.LFBTicket) bool {
+	i := peerIdx(lt.SharderID)
+	if i == 0 || lt.Sign == "" {
+		return false
+	}
+	ok, err := peers[i].scheme.Verify(lt.Sign, lt.Hash())
+	return err == nil && ok
 }
 
 // ---------------------------------------------------------------------------------- one history
@@ -178,7 +204,7 @@ type obs struct {
 	hash   int
 }
 
-func run(h hist) (observations []obs, verdicts [][]bool, fail string, kinds map[string]int) {
+func run(h hist) (observations []obs, verdicts [][]bool, sigs [][]bool, fail string, kinds map[string]int) {
 	kinds = map[string]int{}
 	c := chain.Provider().(*chain.Chain)
 	mb := block.NewMagicBlock()
@@ -205,7 +231,8 @@ func run(h hist) (observations []obs, verdicts [][]bool, fail string, kinds map[
 			go c.StartLFBTicketWorker(ctx, on)
 		}
 	}
-	posted := map[[3]int64]string{} // (round, signer, hash) -> sig mode of a posted ticket
+	posted := map[[3]int64]bool{} // (round, signer, hash) of a posted ticket -> its signature really verifies
+	var made []*chain.LFBTicket   // genuine tickets posted so far
 	prevRound := h.InitRound
 	for i, e := range h.Events {
 		if !(h.Prefill && i == 0 && (e.K == "remote" || e.K == "broadcast")) {
@@ -213,18 +240,22 @@ func run(h hist) (observations []obs, verdicts [][]bool, fail string, kinds map[
 		}
 		switch e.K {
 		case "remote":
-			var vs []bool
+			var vs, ss []bool
 			for _, t := range e.Tickets {
-				lt := makeTicket(t)
+				lt := makeTicket(t, made)
+				valid := sigOK(lt)
+				ss = append(ss, valid)
+				if t.Sig == "good" {
+					made = append(made, lt)
+				}
 				body, _ := json.Marshal(lt)
 				req, _ := http.NewRequest("POST", "/v1/block/get/latest_finalized_ticket", bytes.NewReader(body))
 				hctx, hcancel := context.WithTimeout(ctx, 5*time.Second)
 				_, err := chain.LFBTicketHandler(hctx, req)
 				hcancel()
 				vs = append(vs, err == nil)
-				if _, ok := posted[[3]int64{t.Round, int64(t.Signer), int64(t.Hash)}]; !ok || t.Sig == "good" {
-					posted[[3]int64{t.Round, int64(t.Signer), int64(t.Hash)}] = t.Sig
-				}
+				k3 := [3]int64{t.Round, int64(t.Signer), int64(t.Hash)}
+				posted[k3] = posted[k3] || valid
 				if err == nil {
 					kinds["handler-accepted"]++
 				} else {
@@ -233,6 +264,7 @@ func run(h hist) (observations []obs, verdicts [][]bool, fail string, kinds map[
 				kinds["ticket-"+t.Sig]++
 			}
 			verdicts = append(verdicts, vs)
+			sigs = append(sigs, ss)
 		case "kick":
 			kctx, kcancel := context.WithTimeout(ctx, 5*time.Second)
 			c.AddReceivedLFBTicket(kctx, &chain.LFBTicket{Round: e.Round})
@@ -289,11 +321,12 @@ func run(h hist) (observations []obs, verdicts [][]bool, fail string, kinds map[
 		prevRound = o.round
 		if o.origin >= 0 {
 			p := peers[o.origin]
-			mode, wasPosted := posted[[3]int64{o.round, int64(o.origin), int64(o.hash)}]
+			valid, wasPosted := posted[[3]int64{o.round, int64(o.origin), int64(o.hash)}]
 			switch {
 			case o.origin == 0 || !wasPosted:
 				set("unverified-ticket-adopted")
-			case mode != "good":
+			case !sigOK(got) || !valid:
+				// the reported ticket's signature does not verify for its own (round, hash) under its sender's key
 				set("unverified-ticket-adopted")
 			case !p.known:
 				set("unverified-ticket-adopted")
@@ -309,7 +342,7 @@ func run(h hist) (observations []obs, verdicts [][]bool, fail string, kinds map[
 	return
 }
 
-func coqCase(h hist, observations []obs, verdicts [][]bool) string {
+func coqCase(h hist, observations []obs, verdicts, sigs [][]bool) string {
 	var nodes []string
 	for i, p := range peers {
 		if p == nil || !p.known {
@@ -318,14 +351,17 @@ func coqCase(h hist, observations []obs, verdicts [][]bool) string {
 		nodes = append(nodes, fmt.Sprintf("(%d, %d, %s)", i, p.kind, vh.Bool(p.inMB)))
 	}
 	evs := make([]string, len(h.Events))
+	rb := 0 // index of the remote batch
 	for i, e := range h.Events {
 		switch e.K {
 		case "remote":
 			ts := make([]string, len(e.Tickets))
 			for j, t := range e.Tickets {
+				// lf_sig_ok is the result of really verifying the signature for this ticket's content
 				ts[j] = fmt.Sprintf("{| lf_round := %s; lf_signer := %d; lf_sig_ok := %s; lf_hash := %d |}",
-					vh.Z(t.Round), t.Signer, vh.Bool(t.Sig == "good"), t.Hash)
+					vh.Z(t.Round), t.Signer, vh.Bool(sigs[rb][j]), t.Hash)
 			}
+			rb++
 			evs[i] = "LfRemote " + vh.List(ts)
 		case "kick":
 			evs[i] = "LfKick " + vh.Z(e.Round)
@@ -369,7 +405,13 @@ func genTicket(r *vh.Rand, cur int64) tk {
 	default:
 		t.Signer = r.Range(8, 9) // unknown
 	}
-	t.Sig = []string{"good", "good", "good", "good", "good", "good", "wrongkey", "tampered", "empty", "garbage"}[r.Intn(10)]
+	t.Sig = []string{"good", "good", "good", "good", "good", "good", "wrongkey", "tampered", "empty", "garbage", "replay", "replay", "stolen"}[r.Intn(13)]
+	if t.Sig == "replay" || t.Sig == "stolen" {
+		t.Round = cur + int64(r.Range(1, 8)) // a forged ticket claims progress
+		if r.Chance(1, 4) {
+			t.Round = 1000000
+		}
+	}
 	if r.Chance(1, 25) {
 		t.Round = []int64{0, -1, 1 << 62, 9223372036854775807, -9223372036854775808}[r.Intn(5)]
 	}
@@ -415,19 +457,19 @@ func main() {
 	rep := vh.NewReport("lfbticket", "C41", o)
 	rep.Rule = "random histories of 1-12 events on the real LFB ticket worker: remote batches of 1-5 tickets posted to the real handler " +
 		"(signer: current sharder 50%, current miner 20%, node of an earlier magic block 10%, unknown 20%; real ed25519 signature good 60%, " +
-		"other key / tampered / empty / garbage 10% each; rounds around the current one, 1 in 25 extreme), local kicks, own broadcasts of " +
+		"other key / tampered / empty / garbage and a replayed earlier genuine signature of the same or of another sender on a ticket with another round and hash; rounds around the current one, 1 in 25 extreme), local kicks, own broadcasts of " +
 		"1-4 blocks, reads; self is a sharder in 3 of 4; 1 in 3 queues the first batch before the worker starts; plus all sequences over " +
-		"8 events up to a bound. Non-trivial = the handler accepted and rejected a ticket and the reported ticket advanced at least twice; distinct by full event list"
+		"10 events up to a bound. Non-trivial = the handler accepted and rejected a ticket and the reported ticket advanced at least twice; distinct by full event list"
 	cf := &vh.CasesFile{Imports: []string{"Base.Corr", "Model.LFB", "Corr.LFB"}, CaseType: "lf_case", CheckFn: "lf_check"}
 
 	handle := func(h hist, toCoq bool) {
-		observations, verdicts, fail, kinds := run(h)
+		observations, verdicts, sigs, fail, kinds := run(h)
 		for k, n := range kinds {
 			rep.CountN(k, n)
 		}
 		rep.Case(key(h), kinds["handler-accepted"] > 0 && kinds["handler-rejected"] > 0 && kinds["latest-advanced"] >= 2, h)
 		if toCoq {
-			cf.Add(coqCase(h, observations, verdicts))
+			cf.Add(coqCase(h, observations, verdicts, sigs))
 			rep.CaseInputs = append(rep.CaseInputs, h)
 		}
 		if fail != "" {
@@ -436,7 +478,7 @@ func main() {
 				for _, i := range keep {
 					h2.Events = append(h2.Events, h.Events[i])
 				}
-				_, _, f2, _ := run(h2)
+				_, _, _, f2, _ := run(h2)
 				return f2 == fail
 			})
 			h2 := hist{SelfSharder: h.SelfSharder, InitRound: h.InitRound, Prefill: h.Prefill}
@@ -450,7 +492,7 @@ func main() {
 						h3 := h2
 						h3.Events = append([]ev{}, h2.Events...)
 						h3.Events[i] = ev{K: "remote", Tickets: []tk{t}}
-						if _, _, f3, _ := run(h3); f3 == fail {
+						if _, _, _, f3, _ := run(h3); f3 == fail {
 							h2 = h3
 							break
 						}
@@ -485,6 +527,8 @@ func main() {
 		{K: "remote", Tickets: []tk{{9, 4, "good", 9}}},     // signed by a current miner
 		{K: "remote", Tickets: []tk{{8, 2, "tampered", 8}}}, // bad signature
 		{K: "remote", Tickets: []tk{{10, 8, "good", 10}}},   // unknown node
+		{K: "remote", Tickets: []tk{{12, 1, "replay", 12}}}, // an earlier genuine signature of sharder 1 on another round/hash
+		{K: "remote", Tickets: []tk{{11, 2, "stolen", 11}}}, // an earlier genuine signature of another sender
 		{K: "kick", Round: 8},
 		{K: "broadcast", Blocks: []blk{{7, 17}}},
 		{K: "broadcast", Blocks: []blk{{10, 20}}},
